@@ -1,9 +1,9 @@
 package props
 
 import (
-	"runtime"
 	"context"
 	"fmt"
+	"runtime"
 	"strings"
 	"sync"
 	"sync/atomic"
